@@ -77,7 +77,7 @@ m = {
  'version': 1,
  'setup_cmd': 'cd /verif && ./check --setup',
  'hooks': {'guard': 'verif', 'enable': 'go build -tags verif (the harness module replaces github.com/benhoyt/goawk => /repo, the tag applies to the replaced module)',
-           'baseline_off_cmd': 'cd /repo && go test -vet=off -count=1 -json ./...', 'source_commits': [], 'add_only': True},
+           'baseline_off_cmd': 'cd /repo && go test -vet=off -count=1 -json ./...', 'source_commits': ['b0722d5', '8dac178'], 'add_only': True},
  'engines': [{'name': 'tlc+vreplay', 'path': '/verif/check', 'serves_properties': sorted(CLAIMED),
               'kind_free_text': 'TLA+ specification (spec/*.tla) model-checked by TLC; conformance harness (harness/, Go) replays '
                                 'TLC-exported behaviours on the code built from /repo and records traces that TLC validates'}],
